@@ -1664,9 +1664,8 @@ def starmap_inv(ip, env):
     h = H(ip.st)
     i = u.consumed(ip)
     j = z3.Int(ip.st.uniq("j"))
-    ry = ip.truth(_loc(env, "result_yielded"))
-    ry = z3.BoolVal(ry) if isinstance(ry, bool) else ry
-    return [("one_result_per_input_element_so_far_in_order", z3.And(i >= 0, ip.ctx.loop_k <= u.hi0, out_n(h) == i, ry == (i > 0), forall([j], z3.Implies(z3.And(0 <= j, j < i), out_at(h, j) == APP1(u.x(j))), patterns=[out_at(h, j)]), u.out_inv_common(h)))]
+    ry = _flag(ip, env, "result_yielded")
+    return [("one_result_per_input_element_so_far_in_order", z3.And(i >= 0, ip.ctx.loop_k <= u.hi0, out_n(h) == i, _same(ry, i > 0), forall([j], z3.Implies(z3.And(0 <= j, j < i), out_at(h, j) == APP1(u.x(j))), patterns=[out_at(h, j)]), u.out_inv_common(h)))]
 
 
 class StarmapUnit(GenUnit):
@@ -2347,11 +2346,10 @@ def zip_inv(ip, env):
     r = out_n(h)
     active = _loc(env, "active")
     num_active = ip.term(_loc(env, "num_active"), INT)
-    ty = ip.truth(_loc(env, "tuple_yielded"))
-    ty = z3.BoolVal(ty) if isinstance(ty, bool) else ty
+    ty = _flag(ip, env, "tuple_yielded")
     if not (isinstance(active, PyList) and len(active.items) == u.arity):
         raise Unsupported("`active` is not the list of one flag per iterator")
-    terms = [r >= 0, ty == (r > 0)]
+    terms = [r >= 0, _same(ty, r > 0)]
     count = z3.IntVal(0)
     for i, (s_, lo0, hi0) in enumerate(u.sources):
         a_i = ip.truth(active.items[i])
